@@ -91,6 +91,15 @@ func XML(t *simkit.Tape, o *simkit.Outcome, full bool) {
 	doc := model.GenXML(t, cfg)
 	ser := model.SerialiseXML(t, cfg, doc)
 	data := ser.Bytes
+	if cfg.Encoding != "" {
+		o.Probe("declared-encoding:" + cfg.Encoding)
+		for _, b := range data {
+			if b >= 0x80 {
+				o.Probe("declared-encoding-with-non-ascii-bytes:" + cfg.Encoding)
+				break
+			}
+		}
+	}
 	want := doc.Render(false, true)
 	o.Steps += len(data)
 	nNodes := doc.CountNodes()
